@@ -152,6 +152,13 @@ impl std::hash::Hash for Spy {
 
 /// Observations that need `Ord + Eq + Hash` on the handle type (only some payloads).
 pub trait Extra: Sized {
+    /// `Display` through the handle with width / fill / precision / sign flags
+    fn disp_c(_a: &cactusref::Rc<Self>) -> String {
+        String::new()
+    }
+    fn disp_s(_a: &std::rc::Rc<Self>) -> String {
+        String::new()
+    }
     fn extra_c(_a: &cactusref::Rc<Self>, _b: &cactusref::Rc<Self>) -> String {
         String::new()
     }
@@ -180,8 +187,37 @@ macro_rules! ord_extra {
         }
     )*};
 }
-ord_extra!((), u8, [u64; 40], (u8, u64), String, Box<i32>, Spy);
-impl Extra for f64 {}
+fn disp_obs<H: std::fmt::Display>(a: &H) -> String {
+    format!("[{:>9}|{:<7}|{:^+11.2}|{:*^9.1}|{:03}]", a, a, a, a, a)
+}
+macro_rules! disp_extra {
+    ($($t:ty),*) => {$(
+        impl Extra for $t {
+            fn disp_c(a: &cactusref::Rc<Self>) -> String {
+                disp_obs(a)
+            }
+            fn disp_s(a: &std::rc::Rc<Self>) -> String {
+                disp_obs(a)
+            }
+            fn extra_c(a: &cactusref::Rc<Self>, b: &cactusref::Rc<Self>) -> String {
+                ord_obs(a, b)
+            }
+            fn extra_s(a: &std::rc::Rc<Self>, b: &std::rc::Rc<Self>) -> String {
+                ord_obs(a, b)
+            }
+        }
+    )*};
+}
+ord_extra!((), [u64; 40], (u8, u64), Spy);
+disp_extra!(u8, String, Box<i32>);
+impl Extra for f64 {
+    fn disp_c(a: &cactusref::Rc<Self>) -> String {
+        disp_obs(a)
+    }
+    fn disp_s(a: &std::rc::Rc<Self>) -> String {
+        disp_obs(a)
+    }
+}
 impl Extra for Al64 {}
 impl Extra for Al32 {}
 impl Extra for Zst {}
@@ -191,7 +227,7 @@ pub const NTYPES: u32 = 12;
 pub const TYPE_NAMES: [&str; NTYPES as usize] = ["()", "u8", "f64(NaN for key 0)", "align64", "align32", "[u64;40]", "(u8,u64)", "String", "Box<i32>", "ZST struct", "struct with NaN field", "Spy (hand-written, logged eq/ne/lt/le/gt/ge/cmp/hash)"];
 
 macro_rules! typed_interp {
-    ($m:ident, $x:ident, $($p:tt)*) => {
+    ($m:ident, $x:ident, $d:ident, $($p:tt)*) => {
         pub mod $m {
             use super::{take_notes, Extra, Id, T};
             use std::borrow::Borrow;
@@ -354,6 +390,17 @@ macro_rules! typed_interp {
                         T::Fmt(h) => {
                             if let Some(r) = hs.get(&h) {
                                 log.push(format!("fmt {:?} {}", r, format!("{:p}", *r) == format!("{:p}", R::as_ptr(r))));
+                                // formatting flags must reach the pointer / the value
+                                let p = R::as_ptr(r);
+                                log.push(format!(
+                                    "fmtflags {} {} {} {} {}",
+                                    format!("{:32p}", *r) == format!("{:32p}", p),
+                                    format!("{:#034p}", *r) == format!("{:#034p}", p),
+                                    format!("{:<24p}|", *r) == format!("{:<24p}|", p),
+                                    format!("{:#?}", r) == format!("{:#?}", **r),
+                                    format!("{:>40?}", r) == format!("{:>40?}", **r)
+                                ));
+                                log.push(format!("display {}", V::$d(r)));
                             }
                         }
                     }
@@ -370,8 +417,8 @@ macro_rules! typed_interp {
         }
     };
 }
-typed_interp!(cactus, extra_c, cactusref);
-typed_interp!(stdrc, extra_s, std::rc);
+typed_interp!(cactus, extra_c, disp_c, cactusref);
+typed_interp!(stdrc, extra_s, disp_s, std::rc);
 
 pub fn generate(rng: &mut Rng) -> (u32, Vec<T>) {
     let ty = rng.below(NTYPES as usize) as u32;
